@@ -138,6 +138,7 @@ static int table_mode() {
         else if (o.Get_xrange() != v) mismatch("SetVec", id, "-", 0, 0, "not-stored-exactly");
       } else if (verdict == "reject") {
         if (!threw) mismatch("SetVec", id, "-", 0, 0, len != nx ? "wrong-size-accepted" : "unsorted-accepted");
+        else if (o.Get_xrange() != init) mismatch("SetVec", id, "-", 0, 0, "rejected-input-changed-the-grid");     // a rejected call leaves the grid it found
       }
     } else { printf("BADINPUT %s\n", tag.c_str()); return 2; }
   }
